@@ -1,6 +1,6 @@
-(** Model of /repo/bitmap/fromstr32.go (FromStr32), /repo/bmtree/newpath.go
-    (PathOf, PathsOf; NewPath is in Model/BmtreePath.v) and /repo/bmtree/pathstr.go
-    (PathStr, with fmt's "%0*b").  Strings are [list Z] of bytes.  No proofs here. *)
+(** Model of /repo/bitmap/fromstr32.go (FromStr32) and /repo/bmtree/newpath.go
+    (PathOf, PathsOf; NewPath is in Model/BmtreePath.v, PathStr in
+    Model/BmtreePathStr.v).  Strings are [list Z] of bytes.  No proofs here. *)
 From Coq Require Import ZArith List Bool.
 From Low Require Import Lib.MachInt Lib.Bits Lib.BitSeq Model.BmtreePath.
 Import ListNotations.
@@ -60,7 +60,7 @@ Definition FromStr32 (s : list Z) (frombit tobit : Z) : option (Z * Z) :=
     | None => None
     | Some m =>
       (* b >> uint(40-spanSize): a negative count converts to a huge uint, result 0 *)
-      let sh := 40 - spanSize in
+      let sh := i32 (40 - spanSize) in
       Some (blen, Z.land (if sh <? 0 then 0 else shr64 b sh) m)
     end
   end.
@@ -70,7 +70,7 @@ Definition NewPathChk (searchingBits length height : Z) : option Z :=
   match MaskAt length with
   | None => None
   | Some m =>
-    let sh := height - length in
+    let sh := i32 (height - length) in
     Some (Z.lor (shl64 searchingBits 32) (if sh <? 0 then 0 else shl64 m sh))
   end.
 
@@ -100,21 +100,4 @@ Fixpoint PathsOf_loop (keys : list (list Z)) (frombit height : Z) (dedup : bool)
 Definition PathsOf (keys : list (list Z)) (frombit height : Z) (dedup : bool) : option (list Z) :=
   PathsOf_loop keys frombit height dedup 0 0.
 
-(** fmt.Sprintf("%0*b", width, v) for an unsigned v: the binary digits of v
-    ("0" for 0), left-padded with '0' to at least [width] characters.
-    (Go's fmt is library code: definitional model, exercised by the correspondence.) *)
-Definition bin_digits (v : Z) : list Z :=
-  if v =? 0 then [48]
-  else map (fun i => if Z.testbit v (Z.of_nat i) then 49 else 48) (rev (seq 0 (Z.to_nat (bitlen v)))).
-Definition fmt_0b (width v : Z) : list Z :=
-  let d := bin_digits v in
-  repeat 48 (Z.to_nat (width - zlen d)) ++ d.
-
-(** PathStr(path) *)
-Definition PathStr (path : Z) : list Z :=
-  let treeHeight := PathHeight path in
-  let l := PathLen path in
-  if l =? 0 then []
-  else
-    let sh := 32 + treeHeight - l in
-    fmt_0b l (if sh <? 0 then 0 else shr64 path sh).
+(** PathStr (bmtree/pathstr.go) is modelled in Model/BmtreePathStr.v. *)
